@@ -234,9 +234,15 @@ def _tol(func, a64, dtype, ddof):
 
 
 def run_one(scen: Choices, sched: Choices, cls, cfg):
-    sc = gen(scen, cls, cfg)
+    return execute(gen(scen, cls, cfg), sched, cls, cfg)
+
+
+gen_scenario = gen
+
+
+def execute(sc, sched: Choices, cls, cfg):
     kind, func, dtype = cls
-    rec = {"violations": [], "probes": [], "faults": [], "interleavings": [], "ticks": 0, "nontrivial": False, "n_pools": 0}
+    rec = {"violations": [], "probes": [], "faults": [], "interleavings": [], "ticks": 0, "nontrivial": False, "n_pools": 0, "scenario": sc}
     site = {"property": PROP, "op": func, "kind": kind}
     features = {"dtype": dtype}
 
